@@ -107,7 +107,8 @@ sim::Conn* Sim::current_conn() {
 }
 
 void Sim::make_client() {
-    client = plan.knobs.variant == 0 ? make_client_A(w.ioc, this, &signals) : make_client_B(w.ioc, this, &signals);
+    if (plan.knobs.focus == "C11x") client = plan.knobs.variant == 0 ? make_mini_A(w.ioc, this, &signals) : make_mini_B(w.ioc, this, &signals);
+    else client = plan.knobs.variant == 0 ? make_client_A(w.ioc, this, &signals) : make_client_B(w.ioc, this, &signals);
     client->configure(plan.knobs.client);
     ++client_gen; ++svc_gen;
     running = false;
@@ -516,7 +517,7 @@ void Sim::execute() {
     if (used >= budget) budget_exhausted = true;
 
     // phase 3: drain the receive channel (count what reached the application)
-    if (client && running && !livelock && !budget_exhausted) {
+    if (client && running && !livelock && !budget_exhausted && plan.knobs.focus != "C11x") {
         running_at_drain = true;
         for (int i = 0; i < 100000; ++i) {
             Step s; s.kind = SK::Receive; s.id = -2; s.a = 1;
